@@ -1257,3 +1257,6 @@ RULES.insert(9, ("C08.CONTENT-TYPES", "quick", rule_content_types))
 
 
 RULES.append(("C08.KEYTYPE", "quick", borrowed("c05", "rule_scheme", "C05.", "C08.")))
+# a key share / DH value outside its admissible range or length is malformed peer input: it must be refused
+# with an alert before the arithmetic that would otherwise end in an IndexError / wrong secret
+RULES.append(("C08.PEER-VALUES", "quick", borrowed("c10", "rule_peer_values", "C10.", "C08.")))
